@@ -90,7 +90,14 @@ func c10Check(s *C10Session) string {
 // many keys from every source, and method lookups of every prototype.
 func c10Anchor(t *rapid.T) C10Triple {
 	nkeys := rapid.IntRange(2, 12).Draw(t, "nkeys")
-	pool := []string{"b", "a", "c", "zeta", "k1", "k2", "x", "y", "id", "name", "n", "m", "q", "longer_key", "A", "Z"}
+	pool := []string{"b", "a", "c", "zeta", "k1", "k2", "x", "y", "id", "name", "n", "m", "q", "longer_key", "A", "Z", "Id", "ID", "a_", "B", "Name", "NAME", "k10", "k9", "_", "__x"}
+	if rapid.IntRange(0, 5).Draw(t, "manykeys") == 0 {
+		// larger than any small-size special case of the underlying map or sort
+		nkeys = rapid.IntRange(13, 60).Draw(t, "nmany")
+		for i := 0; i < 64; i++ {
+			pool = append(pool, fmt.Sprintf("key%02d", (i*37)%64))
+		}
+	}
 	var keys []string
 	seen := map[string]bool{}
 	for len(keys) < nkeys {
